@@ -18,7 +18,7 @@ class TLCError(RuntimeError):
 
 def brief(out, n=1500):
     """The informative part of a failed TLC run's output."""
-    lines = out.splitlines()
+    lines = [l for l in out.splitlines() if '@@' not in l]
     keep = [i for i, l in enumerate(lines) if "rror" in l or "***" in l or "Unknown operator" in l or "violated" in l]
     if not keep:
         return out[-n:]
@@ -40,6 +40,13 @@ class TLCResult(object):
         if m:
             self.states_generated = int(m.group(1))
             self.distinct = int(m.group(2))
+        self.sim_traces = 0
+        m = re.search(r"The number of states generated: (\d+)", out)
+        if m and not self.states_generated:
+            self.states_generated = int(m.group(1))
+        m = re.findall(r"(\d+) traces generated", out)
+        if m:
+            self.sim_traces = int(m[-1])
         m = re.search(r"depth of the complete state graph search is (\d+)", out)
         if m:
             self.depth = int(m.group(1))
